@@ -24,7 +24,7 @@ PY = os.path.join(ROOT, '.venv', 'bin', 'python')
 
 TIER_DEFAULTS = {
     'quick': {'budget_s': 120, 't_branch_ms': 5000, 't_claim_ms': 60000, 'max_paths': 3000},
-    'thorough': {'budget_s': 1500, 't_branch_ms': 20000, 't_claim_ms': 600000, 'max_paths': 50000},
+    'thorough': {'budget_s': 1500, 't_branch_ms': 20000, 't_claim_ms': 600000, 'max_paths': 50000, 'crosscheck': 25},
 }
 
 
@@ -262,6 +262,18 @@ def main(argv=None):
                 solver[k] = max(solver.get(k, 0), v)
             else:
                 solver[k] = solver.get(k, 0) + v
+        cc = r.get('crosscheck')
+        if cc:
+            x = agg.setdefault('crosscheck', {'agree': 0, 'inconclusive': 0, 'disagree': 0, 'by': {}})
+            x['agree'] += cc['agree']
+            x['inconclusive'] += cc['inconclusive']
+            x['disagree'] += len(cc['disagree'])
+            for k_, v_ in cc['by'].items():
+                b_ = x['by'].setdefault(k_, {'agree': 0, 'disagree': 0})
+                b_['agree'] += v_['agree']
+                b_['disagree'] += v_['disagree']
+            for dd in cc['disagree']:
+                harness_errors.append(f"solver disagreement in {label}: z3 5.1 {dd['z3_5.1']} vs {dd['solver']} {dd['other']}")
         for a_ in r['assumptions']:
             if a_ not in assumptions:
                 assumptions.append(a_)
@@ -341,6 +353,7 @@ def main(argv=None):
             'instances_partial': agg['instances_partial'],
             'aborted_paths': agg['aborted_paths'], 'unmodelled_paths': agg['unmodelled_paths'],
             'concrete_only_instances': agg.get('concrete_only_instances', 0),
+            'cross_solver_check': agg.get('crosscheck', 'thorough tier only'),
             'exhaustive': False,
             'bounds': getattr(mod, 'BOUNDS', {}).get(tier, ''),
             'outside_bounds': getattr(mod, 'OUTSIDE', ''),
